@@ -15,7 +15,7 @@
   the poller, `botS a` / `bots a` bottom halves started / finished. `pend s` = the events that are sent and not yet
   dispatched (the queue, plus the event the poller holds between its re-pop and `to_wake.take`).
 -/
-import MayVerif.Proof.Cqueue.Step
+import MayVerif.Proof.Cqueue.Wake
 set_option linter.unusedSimpArgs false
 namespace MayVerif.Cqueue
 open Actor Env
@@ -164,29 +164,64 @@ theorem arm_panic_reraised (n : Nat) (sched : List (Actor × Env)) (r : Exit)
   · intro p hp
     exact (h.panA2 p (hgo.1 p hp)).1
 
-/-- `poller_not_stuck`, partial: the registration half of the register-then-recheck. **Full statement** (quiescence form):
+/-- no arm is inside `send` / `subscribe` / `EventSender::drop` or being resumed: every arm is in the user code of a top
+    half, suspended with its kernel tail finished, ended, or not spawned -/
+def quietArm (pc : APc) (tp : TPc) : Prop := tp = .idle ∧ (pc = .idle ∨ pc = .top ∨ pc = .susp ∨ pc = .ended)
 
-      ∀ n sched m b, (run fixed (init n) sched).ppc = .p5 m b → (run fixed (init n) sched).sh.tok b = false →
-        (∀ a, quiet ((run fixed (init n) sched).apc a) ((run fixed (init n) sched).tpc a)) →
-        (run fixed (init n) sched).sh.q = [] ∧ ∃ a, a < (run fixed (init n) sched).sh.total ∧ (run fixed (init n) sched).apc a = .top
-
-    (the poller is parked without its token while no arm is inside `send`/`subscribe`/`EventSender::drop` ⇒ nothing is
-    queued and some arm is still in a top half: the poller waits for something that has not happened yet). What is
-    proved here: whoever pops an event while the poller is past its registration is a poll that has not parked – a
-    parked poller never holds an event: an event that the re-pop after the registration found is dispatched
-    (`p4 → p4t → run/c1`), never slept on; missing is the invariant that every queued event's pusher still has its
-    `to_wake.take` ahead (needs the `to_wake`/token clauses; the model has the fields and the steps). -/
-theorem poller_not_stuck_partial (n : Nat) (sched : List (Actor × Env)) (m : Mode) (b : Bid)
-    (hp : (run fixed (init n) sched).ppc = .p5 m b) :
-    pend (run fixed (init n) sched) = (run fixed (init n) sched).sh.q ∧
-    (∀ a, (run fixed (init n) sched).sh.doneCons a = true → (run fixed (init n) sched).apc a = .ended) := by
+/-- **The parked poller is never stuck** (quiescence form of the register-then-recheck): if the poller is parked on its
+    blocker without its token while no arm is in the middle of a cqueue operation, then nothing is queued, the poller is
+    still registered in `to_wake`, and some arm is still in a top half – the poller waits for something that has not
+    happened yet, and whoever makes it happen (`push`, then `to_wake.take`) will find and unpark it. In particular the
+    drain of `Cqueue::drop` cannot sleep on a queued event or after the last arm has ended. (Under a fair scheduler:
+    absence of the lost wake-up; a time-out is the only other way out of the park.) -/
+theorem poller_not_stuck (n : Nat) (sched : List (Actor × Env)) (m : Mode) (b : Bid)
+    (hp : (run fixed (init n) sched).ppc = .p5 m b) (ht : (run fixed (init n) sched).sh.tok b = false)
+    (hq : ∀ a, quietArm ((run fixed (init n) sched).apc a) ((run fixed (init n) sched).tpc a)) :
+    (run fixed (init n) sched).sh.q = [] ∧ (run fixed (init n) sched).sh.toWake = some b ∧
+    ∃ a, a < (run fixed (init n) sched).sh.total ∧ (run fixed (init n) sched).apc a = .top := by
   have h := inv_reach n sched
+  have hw := invW_reach n sched
   generalize run fixed (init n) sched = s at *
-  refine ⟨by simp [pend, hp, held], ?_⟩
-  intro a ha
-  rcases h.dcons a ha with h1 | h1
+  have hwb : waitB s.ppc = some b := by simp [hp, waitB]
+  -- nothing is queued: a queued event's pusher would still be inside its cqueue operation
+  have hqe : s.sh.q = [] := by
+    cases hql : s.sh.q with
+    | nil => rfl
+    | cons ev rest =>
+      have := hw.w2 b hwb (by simp [hp, atP5]) ht ev (by simp [hql])
+      cases ev with
+      | normal a => simp only [pusherPending] at this; have := (hq a).1; simp_all
+      | done a =>
+        simp only [pusherPending] at this
+        rcases (hq a).2 with h1 | h1 | h1 | h1 <;> rcases this with h2 | h2 <;> simp_all
+  have hreg : s.sh.toWake = some b := by
+    rcases hw.w1 b hwb with h1 | h1
+    · rw [ht] at h1; cases h1
+    · exact h1
+  refine ⟨hqe, hreg, ?_⟩
+  -- somebody is alive, and a quiet live arm is in a top half (a suspended one would have its event queued)
+  have h3 := hw.w3 (Or.inr (by simp [hwb]))
+  have hlive : 0 < cntOf s.n notDone s.apc := by
+    rcases h3 with h1 | h1 | ⟨b', hb', h1⟩
+    · exact h1
+    · exact absurd hqe h1
+    · rw [hwb] at hb'; simp only [Option.some.injEq] at hb'; subst hb'; rw [ht] at h1; cases h1
+  obtain ⟨a, _, hna⟩ := cntOf_pos _ _ _ hlive
+  have hrow := h.arm a
+  have hlt : a < s.sh.total := by
+    rcases h.spawned a (by intro hi; simp [hi, notDone] at hna) with h1 | ⟨_, h2⟩
+    · exact h1
+    · simp [hp, adding] at h2
+  refine ⟨a, hlt, ?_⟩
+  have hpe : pend s = s.sh.q := by simp [pend, hp, held]
+  simp only [ArmOk, armOk, hpe, hqe, List.not_mem_nil] at hrow
+  rcases (hq a).2 with h1 | h1 | h1 | h1
+  · simp [h1, notDone] at hna
   · exact h1
-  · simp [hp, checking] at h1
+  · have htp := (hq a).1
+    rw [h1, htp] at hrow
+    simp [tailPushed] at hrow
+  · simp [h1, notDone] at hna
 
 /-! ### Non-vacuity: concrete schedules of the fixed model reach the hypotheses -/
 
@@ -220,6 +255,12 @@ set_option maxRecDepth 8000 in
 -- the parked poller is woken by the arm's `subscribe` (register, re-pop empty, park; push, take + unpark)
 example : (run fixed (init 1) (addArm ++ [(poller, poll false), (poller, go), (poller, go), (poller, go), (poller, go)] ++ armSends 0)).sh.tok 0 = true := by
   decide
+
+set_option maxRecDepth 8000 in
+-- `poller_not_stuck`: the poller registers, re-pops nothing and parks while the only arm is still in its top half
+example : (run fixed (init 1) (addArm ++ [(poller, poll false), (poller, go), (poller, go), (poller, go), (poller, go)])).ppc = .p5 (.user false) 0 ∧
+    (run fixed (init 1) (addArm ++ [(poller, poll false), (poller, go), (poller, go), (poller, go), (poller, go)])).sh.tok 0 = false ∧
+    (run fixed (init 1) (addArm ++ [(poller, poll false), (poller, go), (poller, go), (poller, go), (poller, go)])).apc 0 = .top := by decide
 
 /-! ### Negation witnesses: what the pinned code (and the code with a single fix missing) does -/
 
